@@ -61,7 +61,8 @@ def check_shape(t, shape, kind, maxstop, maxhide, only=None):
 def job(shapes, kind, maxstop, maxhide):
     t = core.Tally()
     for s in shapes:
-        check_shape(t, s, kind, maxstop, maxhide)
+        core.guard(t, "C06", {"engine": "E2", "module": MOD, "shape": s, "kind": kind, "start": 0, "stop": [], "filtered_out": [],
+                              "maxlevel": None}, check_shape, t, s, kind, maxstop, maxhide)
     return t
 
 
